@@ -300,7 +300,12 @@ func main() {
 				}
 			}
 			if !replaced {
-				common.Machinery("no witness for %s can be rendered to text with the canonical lexemes: %v", ref, recog.KindNames(ks))
+				// every token sequence that takes this alternative (up to the searched length) contains a pair of tokens
+				// the lexer never emits one after the other: no TEXT is a statement the parser accepts by taking it
+				outcomes["no-witness-text"]++
+				r.Fail(common.Failure{Check: "no-witness", Class: "alternative:" + ref.String(), Shape: "no-text-takes-alternative",
+					Case: witnessCase{Alt: ref, Tokens: recog.KindNames(ks)}, Detail: fmt.Sprintf("%s: the token sequences that take it (shortest: %v) cannot be produced by the lexer from any text: the alternative is dead", alt, recog.KindNames(ks))})
+				continue
 			}
 			cands = cands[1:]
 		}
